@@ -663,6 +663,7 @@ func (w *WAL) cut() error {
 		return err
 	}
 
+	verifCrashPoint("wl.cut.rename.before", w.enti+1)
 	if err = os.Rename(newTail.Name(), fpath); err != nil {
 		return err
 	}
@@ -688,6 +689,7 @@ func (w *WAL) cut() error {
 		return err
 	}
 
+	verifCrashPoint("wl.cut.after", w.enti+1)
 	plog.Infof("segmented wal file %v is created", fpath)
 	return nil
 }
